@@ -3,7 +3,7 @@
 From Coq Require Import List ZArith Bool Lia Permutation Sorted.
 From IpfsLog Require Import Model.System Model.CheckLog Proofs.OmapProofs Proofs.SortProofs Proofs.Inv Proofs.DiffProofs
      Proofs.JoinProofs Proofs.SysProofs Proofs.TravProofs Proofs.TimeProofs Proofs.ValuesProofs Proofs.BoundedProofs
-     Proofs.PInv Proofs.PJoin Proofs.PSys Proofs.PValues Proofs.PTime.
+     Proofs.PInv Proofs.PJoin Proofs.PSys Proofs.PValues Proofs.PTime Proofs.PBounded.
 Import ListNotations.
 Open Scope Z_scope.
 
@@ -162,6 +162,43 @@ Proof.
   exact (pvalues_causal _ l v UO (IL r l L) TO B D).
 Qed.
 
+(* the main clause for ALL pairs of logs: any two replicas of any history with any earlier bounds *)
+Theorem C16_bounded_join_keeps_newest_all_pairs ops r src l o size lu :
+  pwf ops -> Z.of_nat (length ops) < two63 ->
+  nth_error (s_logs (run ops)) r = Some l -> nth_error (s_logs (run ops)) src = Some o ->
+  l_id l = l_id o -> 0 <= size ->
+  join l o false (-1) = (lu, Ok tt) ->                     (* the unbounded merge is accepted *)
+  order_total lu ->
+  exists vu l',
+    values lu = Some vu /\
+    join l o false size = (l', Ok tt) /\
+    let keep := lastn (Z.to_nat size) (oslice vu) in
+    (forall k v, In (k, v) (l_entries l') <-> In v keep /\ e_hash v = k) /\
+    (forall k v, In (k, v) (l_heads l') <-> In v keep /\ e_hash v = k /\ ~ named_in keep k) /\
+    (forall n, In n (okeys (l_next l')) <-> named_in keep n) /\
+    NoDup (okeys (l_entries l')) /\
+    (Z.of_nat (length vu) <= size -> forall k v, In (k, v) (l_entries l') <-> In (k, v) (l_entries lu)).
+Proof.
+  intros W Hlen L O Hid Hs J OT. destruct (psinv_run ops W) as [UO IL]. pose proof (IL r l L) as Il. pose proof (IL src o O) as Io.
+  unfold join, join_reads in J.
+  assert (E0 : N.eqb (l_id l) (l_id o) = true) by (apply N.eqb_eq; exact Hid). rewrite E0 in J. cbn [negb] in J.
+  destruct (difference (l_entries o) (oslice (l_heads o)) l) as [ni|] eqn:D; [|discriminate].
+  destruct (forallb (entry_ok l) (oslice ni)) eqn:OK; cbn [negb] in J; [|discriminate].
+  cbn [Z.ltb Z.compare] in J. injection J as <-.
+  assert (TO : times_ok (j_log l o ni)).
+  { intros e He. apply ents_In in He. destruct He as [k He]. cbn [j_log l_entries] in He.
+    apply (proj2 (pj_ents_spec _ l o Il Io Hid ni D)) in He. destruct He as [He|He].
+    - eapply (ptimes_in_range ops r l W Hlen L). apply ents_In; eauto.
+    - apply (pni_sound _ l o Io Hid ni D) in He. destruct He as [He _].
+      eapply (ptimes_in_range ops src o W Hlen O). apply ents_In; eauto. }
+  destruct (pbounded_join_spec _ l o UO Il Io Hid ni D OK TO OT size Hs) as [vu [l' [V [J' [A [B [C _]]]]]]].
+  destruct (pbounded_join_next _ l o UO Il Io Hid ni D OK TO OT size Hs) as [vu2 [l2 [V2 [J2 N2]]]].
+  rewrite V in V2. injection V2 as <-. rewrite J' in J2. injection J2 as <-.
+  exists vu, l'. split; [exact V|]. split; [exact J'|]. cbn zeta.
+  split; [exact A|]. split; [exact B|]. split; [exact N2|]. split; [exact C|].
+  intros Hl. exact (pbounded_join_large _ l o UO Il Io Hid ni D OK TO OT size Hs vu l' V J' Hl).
+Qed.
+
 From IpfsLog Require Import Model.ExampleHist Proofs.WfBool.
 Example C16_truncated_nonvacuous :
   pwf ex_hist_trunc /\ wfb ex_hist_trunc = false /\
@@ -189,5 +226,6 @@ Print Assumptions C16_bounded_join_forgets_dropped_entries.
 Print Assumptions C16_every_log_of_every_history_is_a_log.
 Print Assumptions C16_any_merge_any_bound_any_history.
 Print Assumptions C16_truncated_logs_linearise.
+Print Assumptions C16_bounded_join_keeps_newest_all_pairs.
 Print Assumptions C16_truncated_nonvacuous.
 Print Assumptions C16_nonvacuous.
